@@ -9,8 +9,9 @@
    semantics. REFUTED (c17_refuted_*, concrete schedules by vm_compute, each reproduced on the implementation): the full
    property — no panic, serialisable outcome — which fails because every mutation is two or more separately locked critical
    sections (D11). These are the known findings of KNOWN_FINDINGS.txt; no theorem claims serialisability. *)
+From Coq Require Import Permutation.
 From Gdsl.Model Require Import Spec Conc.
-From Gdsl.Proofs Require Import ConcProof.
+From Gdsl.Proofs Require Import ConcProof ConcCycle.
 
 (* in every reachable configuration a thread holds at most one guard, and only for the critical section it is parked at *)
 Theorem c17_one_guard_per_thread :
@@ -134,4 +135,16 @@ Theorem c17_refuted_undirected_iter :
             nth_error (c_threads c) 0 = Some t /\ t_results t = [REdges l] /\ l = l1 ++ x :: l2 ++ x :: l3).
 Proof. exact c17_refuted_undirected_iter. Qed.
 Print Assumptions c17_refuted_undirected_iter.
+
+(* REFUTATION: four threads, one connect each, over four pairwise shared adjacency lists: all succeed, nothing panics, and the final lists are those of NO sequential order of the four calls (all 24 permutations) *)
+Theorem c17_refuted_cycle :
+  let c := run_n true heap2 cyc_progs cyc_sched in
+       all_done c = true /\
+       no_panic c = true /\
+       map (t_results (E:=nat)) (c_threads c) = [[RO OkU]; [RO OkU]; [RO OkU]; [RO OkU]] /\
+       graph_of c = ([(0, 7); (1, 8)], [(1, 6); (0, 7)], [(1, 9); (0, 6)], [(0, 8); (1, 9)]) /\
+       (forall p : list (call nat nat),
+        Permutation cyc_calls p -> all_done (run_n true heap2 [p] []) = true /\ serial_graph p <> graph_of c).
+Proof. exact c17_refuted_cycle. Qed.
+Print Assumptions c17_refuted_cycle.
 
